@@ -120,12 +120,15 @@ class SimSolver(pulp.LpSolver):
 
     def actualSolve(self, lp, **kwargs):
         env = self.env
-        fault = env.next_fault()
+        if env.backend in ("sim-api", "none"):
+            fault = env.next_fault()
+        else:
+            # the step's fault belongs to another back-end (the CBC / HiGHS process); this API-level solver sits in
+            # the default-solver slot and is only consulted when the code under test turns to it as a second
+            # choice (HiGHS gone or failed).  It has a behaviour of its own for the step.
+            fault = dict(env.secondary_fault)
+            events.fired("api.consulted_as_second_choice")
         kind = fault.get("kind", "ok")
-        if kind == "vanishes_after_lookup":
-            # the step's fault concerns the HiGHS executable; this (default) solver is merely what the code under
-            # test turned to once HiGHS was gone, and it is healthy
-            kind = "ok"
         info = env.begin_solve("api", kind)
         if kind == "raise_before":
             events.fired("api.raise_before")
@@ -626,6 +629,7 @@ class SimEnv:
         self.cbc_executable = cbc_executable
         self.faults = list(faults) if faults else [{"kind": "ok"}]
         self.fault_cursor = 0
+        self.secondary_fault = {"kind": "ok", "tie": self.faults[0].get("tie", 0)}
         self.highs_lookups_left = None
         if backend == "highs-wrapper" and self.faults[0].get("kind") == "vanishes_after_lookup":
             self.highs_lookups_left = int(self.faults[0].get("lookups", 1))
